@@ -133,4 +133,9 @@ MUTANTS = [
         }"""),
     dict(name="intlit-uint8-via-signed-harmless", prop="C10", units=["u_intlit"], file="crates/compiler/src/typer/check.rs", expect=0,
          old='                .parse_unsigned_integer(diagnostics, literal, "uint8")', new='                .parse_signed_integer(diagnostics, literal, "uint8")'),
+    # ---- U-PKGALLOW
+    dict(name="pkgallow-everything", prop="C16", units=["u_pkgallow"], file="crates/compiler/src/typer/name_resolution.rs", expect=1,
+         old='    package == current_package || package == "Builtin" || imports.contains(package)\n', new='    package == current_package || package == "Builtin" || !imports.contains(package)\n'),
+    dict(name="pkgallow-method-drops-imports", prop="C16", units=["u_pkgallow"], file="crates/compiler/src/typer/name_resolution.rs", expect=1,
+         old='        package == self.current_package || package == "Builtin" || self.imports.contains(package)', new='        package == self.current_package || package == "Builtin"'),
 ]
